@@ -480,3 +480,53 @@ def cache_2_3(ctx, rep, roles):
                    'that lands in between is recorded as already seen, the stale tree is then served until the next change')
     rep.minimum('CACHE-2', 2)
     rep.minimum('CACHE-3', 2)
+
+
+def cache_5(ctx, rep):
+    rep.rule('CACHE-5', "the modification time of a pickle file is the freshness reference of the on-disk entry: only the "
+                        "writer (_save_to_file_system, truncating write of new content) may change it; nothing else may "
+                        "touch, append to or re-time a path obtained from _get_hashed_path")
+    prog = ctx.prog
+
+    def is_pickle_path(f, e, depth=0):
+        if depth > 3:
+            return False
+        if isinstance(e, ast.Call) and norm(e.func) == '_get_hashed_path':
+            return True
+        if isinstance(e, ast.Name):
+            vals = [n.value for n in walk_own(f.node) if isinstance(n, ast.Assign)
+                    and any(isinstance(t, ast.Name) and t.id == e.id for t in n.targets)]
+            if vals and any(is_pickle_path(f, v, depth + 1) for v in vals):
+                return True
+            # parameter: does some caller pass a pickle path?
+            if e.id in f.params():
+                idx = f.params().index(e.id)
+                for g in prog.mod(CACHE).funcs.values():
+                    for site in ctx.cg.sites[g.key]:
+                        if f in site.targets and idx < len(site.node.args) and is_pickle_path(g, site.node.args[idx], depth + 1):
+                            return True
+        if isinstance(e, ast.Attribute) and e.attr == 'path':
+            return False
+        return False
+    n_sites = 0
+    writers = {'os.utime': None, 'os.truncate': None, 'os.rename': None, 'os.replace': None, 'shutil.copy': None, 'shutil.copyfile': None}
+    for f in prog.mod(CACHE).funcs.values():
+        for n in walk_own(f.node):
+            if not isinstance(n, ast.Call):
+                continue
+            name = norm(n.func)
+            args = list(n.args)
+            if name in writers or name.endswith('.touch') or (name in ('_touch',)):
+                tgt = args[0] if args else (n.func.value if isinstance(n.func, ast.Attribute) else None)
+                if tgt is not None and is_pickle_path(f, tgt):
+                    n_sites += 1
+                    rep.ob('CACHE-5', CACHE, f.qual, norm(n), False,
+                           'the modification time of a cache file is changed without writing new content: a later change of '
+                           'the source file may look older than the (stale) entry')
+            if name == 'open' and args and is_pickle_path(f, args[0]):
+                mode = args[1].value if len(args) > 1 and isinstance(args[1], ast.Constant) else 'r'
+                n_sites += 1
+                ok = mode in ('rb', 'r') or (mode == 'wb' and f.qual == '_save_to_file_system')
+                rep.ob('CACHE-5', CACHE, f.qual, norm(n), ok,
+                       'cache file opened with mode %r outside the writer' % mode)
+    rep.minimum('CACHE-5', 2)
